@@ -332,9 +332,11 @@ func writeSyncFile(fn string, data []byte) error {
 	}
 
 	_, err = f.Write(data)
+	verifPoint("persist:after-tmp-write")
 	if err == nil {
 		err = f.Sync()
 	}
+	verifPoint("persist:after-fsync")
 	f.Close()
 	return err
 }
@@ -434,6 +436,7 @@ func (n *NSQD) PersistMetadata() error {
 	if err != nil {
 		return err
 	}
+	verifPoint("persist:after-rename")
 	// technically should fsync DataPath here
 
 	return nil
@@ -566,9 +569,11 @@ func (n *NSQD) DeleteExistingTopic(topicName string) error {
 	// to enforce ordering
 	topic.Delete()
 
+	verifPoint("delete-topic:before-remove")
 	n.Lock()
 	delete(n.topicMap, topicName)
 	n.Unlock()
+	verifPoint("delete-topic:after-remove")
 
 	if !topic.ephemeral {
 		n.persistAfterDelete()
@@ -598,7 +603,9 @@ func (n *NSQD) Notify(v interface{}, persist bool) {
 	// should not persist metadata while loading it.
 	// nsqd will call `PersistMetadata` it after loading
 	loading := atomic.LoadInt32(&n.isLoading) == 1
+	verifPoint("notify:spawn")
 	n.waitGroup.Wrap(func() {
+		defer verifPoint("notify:done")
 		// by selecting on exitChan we guarantee that
 		// we do not block exit, see issue #123
 		select {
